@@ -189,3 +189,10 @@ Print Assumptions C09_source_search_loop_is_model.
 Theorem C09_source_pins : Gen.multseq_source_pins = true.
 Proof. exact gen_multseq_pins. Qed.
 Print Assumptions C09_source_pins.
+
+(** the coarsener's re-binning quotient `np.floor(start / binsize)` — the expression Proofs/FloatDiv.v proves exact (see
+    C08_binary64_relative_bin_exact) — is pinned in the source on every run: a reciprocal multiplication is a different
+    computation (it is wrong for about one bin size in nine) *)
+Theorem C09_float_division_source_pins : Gen.float_division_pins_coarsen = true.
+Proof. reflexivity. Qed.
+Print Assumptions C09_float_division_source_pins.
